@@ -10,8 +10,9 @@
      sp   <lo> <hi>                 the code points c, lo <= c < hi, with chr(c).isspace()
    flags: four characters 0/1: no_header reverse whitespace finite_only
    floats: entries "text:K" or "text:K:text" separated by ";" - Python's float() of every distinct
-           cell text without commas: F finite (with the expected exported repr), U finite but
-           below 1e-307 in magnitude (Document.save raises), I infinite, N nan; absent = ValueError *)
+           cell text without commas: F finite (with the expected exported repr), U finite but not
+           storable (Document.save raises; unused on the current tree), I infinite, N nan;
+           absent = ValueError *)
 From Coq Require Import ZArith NArith List Bool.
 From NP Require Import Model.PyBase Model.Csv.
 Import ListNotations.
